@@ -104,9 +104,9 @@ Definition limit_specified (o : cb_options) : bool :=
 
 (* ------------------------------------------------------------------ block atomicity on the real output
    For directory / list targets the stdout *sequence* must be an interleaving of whole blocks, every
-   file's blocks in order (Properties/C18.v, C18_interleaving).  Decided greedily: at every position
-   some file's next block is a prefix of what remains (blocks start with a rule line or a count line,
-   which name the file, so the choice is unambiguous up to identical duplicates). *)
+   file's blocks in order (Properties/C18.v, C18_interleaving): at every position some file's next
+   block is a prefix of what remains (blocks start with a rule line or a count line, which name the
+   file, so there is almost never a choice). *)
 Fixpoint strip_prefix (b l : list bytes) : option (list bytes) :=
   match b with
   | [] => Some l
@@ -116,18 +116,23 @@ Fixpoint strip_prefix (b l : list bytes) : option (list bytes) :=
                end
   end.
 
-Fixpoint pop_block (fs : list (list (list bytes))) (out : list bytes) : option (list (list (list bytes)) * list bytes) :=
+(* try every file whose next block is a prefix of the remaining output (backtracking: two files can
+   have equal first lines, e.g. a scan list naming a file twice and a rule identifier used in two
+   namespaces).  `if` rather than `||`: vm_compute is call-by-value. *)
+Fixpoint try_each (k : list (list (list bytes)) -> list bytes -> bool)
+         (seen fs : list (list (list bytes))) (out : list bytes) : bool :=
   match fs with
-  | [] => None
+  | [] => false
   | bl :: rest =>
-      match bl with
-      | b :: bs =>
-          match strip_prefix b out with
-          | Some out' => Some (bs :: rest, out')
-          | None => match pop_block rest out with Some (rest', out') => Some (bl :: rest', out') | None => None end
-          end
-      | [] => match pop_block rest out with Some (rest', out') => Some (rest', out') | None => None end
-      end
+      if match bl with
+         | b :: bs => match strip_prefix b out with
+                      | Some out' => k (rev_append seen (bs :: rest)) out'
+                      | None => false
+                      end
+         | [] => false
+         end
+      then true
+      else try_each k (bl :: seen) rest out
   end.
 
 Fixpoint interleaved (fuel : nat) (fs : list (list (list bytes))) (out : list bytes) : bool :=
@@ -135,7 +140,7 @@ Fixpoint interleaved (fuel : nat) (fs : list (list (list bytes))) (out : list by
   | [] => forallb (fun bl => match bl with [] => true | _ => false end) fs
   | _ => match fuel with
          | O => false
-         | S k => match pop_block fs out with Some (fs', out') => interleaved k fs' out' | None => false end
+         | S k => try_each (interleaved k) [] fs out
          end
   end.
 
